@@ -998,7 +998,10 @@ func ruleCtorReentry(rule string) RuleFn {
 					}
 					return false
 				}
-				if hit, _ := an.PathTo(fn, first, proceed, nil); hit != nil || proceed(first) {
+				_ = first
+				// path-sensitive: the flag may travel through a boolean (reentered := n.running; if !reentered {...})
+				e := e
+				if res := an.PathSens(an.PSQuery{Fn: fn, StartEdge: &e, Target: func(i ssa.Instruction, _ *an.PEnv) bool { return proceed(i) }}); res.Found != nil || res.Overflow {
 					okRun, whyRun = false, "a call that finds the constructor function running can still proceed"
 				}
 			}
@@ -1056,19 +1059,19 @@ func ruleCtorReentry(rule string) RuleFn {
 				al, ok := in.(*ssa.Alloc)
 				return ok && isConstruction(al) && an.IsDigNamed(al.Type(), "errCycleDetected")
 			}
-			reachCons := func(es []an.Edge) bool {
-				for _, e := range es {
-					first := e.From.Succs[e.Succ].Instrs[0]
-					if isCons(first) {
-						return true
-					}
-					if hit, _ := an.PathTo(fn, first, isCons, an.NewGates().AddInstr(mark...)); hit != nil {
-						return true
-					}
+			// path-sensitive (the verdict may travel through a boolean): the error is built below the "equal" edge, and
+			// from the entry it is never built on a path that crossed neither that edge nor the "running" edge
+			_ = neE
+			fromEq := false
+			for _, e := range eqE {
+				e := e
+				if res := an.PathSens(an.PSQuery{Fn: fn, StartEdge: &e, Gates: an.NewGates().AddInstr(mark...), Target: func(i ssa.Instruction, _ *an.PEnv) bool { return isCons(i) }}); res.Found != nil {
+					fromEq = true
 				}
-				return false
 			}
-			if !reachCons(eqE) || reachCons(neE) {
+			runTrue := an.BoolEdges(fn, func(v ssa.Value) bool { return an.Norm(v) == "p:n.running" }, true)
+			other := an.PathSens(an.PSQuery{Fn: fn, Gates: an.NewGates().AddInstr(mark...).AddEdges(eqE...).AddEdges(runTrue...), Target: func(i ssa.Instruction, _ *an.PEnv) bool { return isCons(i) }})
+			if !fromEq || other.Found != nil || other.Overflow {
 				okEpoch, whyE = false, "the cycle error is not built exactly where constructorNode.buildingSince EQUALS the current decorator-start count: with the test inverted, a genuine re-entry recurses until the stack overflows and the legitimate one through a decorator is rejected"
 			}
 		}
